@@ -42,13 +42,23 @@ class Module:
                 child._parent = node
         self.normalised, self.flagged = [], set()
         if os.environ.get("SNT_NO_NORMALISE") != "1":
-            from .normalise import split_parallel_assignments
+            from .normalise import canonicalise, split_parallel_assignments
+            if canonicalise(self.tree):
+                for node in ast.walk(self.tree):
+                    for child in ast.iter_child_nodes(node):
+                        child._parent = node
             split_parallel_assignments(self.tree)
         inv = _inventory().get(relpath)
         if inv is not None and os.environ.get("SNT_NO_NORMALISE") != "1":
             from .normalise import normalise_module
             n = normalise_module(self.tree, inv)
             self.normalised, self.flagged = n.log, n.flagged
+            if n.log:
+                # line numbers are used as textual order by several rules: make them consistent again after inlining
+                try:
+                    self.tree = ast.parse(ast.unparse(self.tree), filename=relpath)
+                except Exception:
+                    pass
             for node in ast.walk(self.tree):
                 for child in ast.iter_child_nodes(node):
                     child._parent = node
